@@ -6,4 +6,5 @@ NEXT Next
 INVARIANT LawRejoin
 INVARIANT LawPiecesBalanced
 INVARIANT LawGeneratedBalanced
+INVARIANT LawLevelsAgree
 CHECK_DEADLOCK FALSE
